@@ -269,6 +269,10 @@ def purity_tree(idx, with_params, nested):
         if not hasattr(value, "params"):
             value.params = Parameters()
         value.params["X-P"] = "1"
+    if with_params == 3:
+        # the value as the reader leaves it for a line without parameters: whatever the constructor derived (VALUE, TZID)
+        # is replaced by an empty map; writing may not put anything back into the tree
+        value.params = Parameters()
     if with_params == 2:
         # parameters a serialiser might be tempted to "tidy up" while writing (explicit TZID=UTC next to a Z value, a
         # VALUE that states the default, an empty and a list value): writing must leave them where the caller put them
@@ -309,6 +313,58 @@ def run_purity(case):
         fails.append(fail("unbalanced-output", case, "balanced", a))
     return {"state": ("purity", idx, with_params, nested, srt, a), "trans": 3, "nontrivial": True,
             "outcome": "pure" if not fails else "FAIL", "fails": fails}
+
+
+# trees as the reader builds them, from lines that leave implicit what a careful writer states (no VALUE on dates /
+# periods / absolute triggers, a stated default, TZID next to Z or on a DATE, an unknown TZID, empty values)
+PARSED_LINES = (
+    "EXDATE:20200108,20200115", "RDATE:20200101", "RDATE:20200101T000000Z/PT1H,20200102T000000Z/20200102T010000Z",
+    "EXDATE:20200108T100000,20200115T100000", "EXDATE;TZID=Europe/Berlin:20200108T100000", "RDATE;VALUE=DATE:20200101,20200102",
+    "DTSTART:20200101", "DTSTART;VALUE=DATE-TIME:20200101T000000Z", "DTSTART;TZID=UTC:20200101T000000",
+    "DTSTART;TZID=Europe/Berlin:20200101T000000Z", "DTSTART;VALUE=DATE;TZID=Europe/Berlin:20200101",
+    "DTEND;TZID=Unknown/Zone:20200101T000000", "DTEND;tzid=Europe/Berlin;value=date-time:20200101T000000",
+    "RECURRENCE-ID;RANGE=THISANDFUTURE:20200101", "DUE:20200101T000000", "COMPLETED:20200101T000000", "DTSTAMP;TZID=Europe/Berlin:20200101T000000",
+    "FREEBUSY:20200101T000000Z/PT1H,20200102T000000Z/PT0S", "DURATION:P7D", "DURATION:PT0S", "RRULE:FREQ=DAILY;UNTIL=20200101",
+    "RRULE:freq=weekly;byday=mo,-1su;wkst=su", "CATEGORIES:", "CATEGORIES;LANGUAGE=en:a,,b", "GEO:1;2", "X-FOO;VALUE=DATE:20200101",
+    "X-FOO;VALUE=PERIOD:20200101T000000Z/P1D", "ATTACH;VALUE=BINARY;ENCODING=BASE64:AAAA", "ATTACH:http://x/y", "SEQUENCE:007",
+    "PRIORITY:+5", "TZOFFSETTO:+0000", "SUMMARY;LANGUAGE=:", "COMMENT:a\\Nb", "X-TIME;VALUE=TIME:000000", "X-BOOL;VALUE=BOOLEAN:true",
+    "X-FLOAT;VALUE=FLOAT:1e3", "X-INT;VALUE=INTEGER:-0",
+)
+PARSED_ALARM_LINES = ("TRIGGER:20200101T000000Z", "TRIGGER;RELATED=end:-PT0S", "TRIGGER;VALUE=DURATION:P0D", "REPEAT:00", "DURATION:PT5M",
+                      "ACKNOWLEDGED:20200101T000000", "TRIGGER;VALUE=DATE-TIME;TZID=Europe/Berlin:20200101T000000")
+
+
+def run_purity_parsed(case):
+    _, where, idx, srt, provider = case
+    env.use_provider(provider)
+    fails = []
+    line = (PARSED_LINES if where == "event" else PARSED_ALARM_LINES)[idx]
+    body = ["BEGIN:VCALENDAR", "BEGIN:VEVENT", "UID:u"] + ([line] if where == "event" else []) + \
+           ["BEGIN:VALARM", "ACTION:DISPLAY"] + ([line] if where == "alarm" else []) + ["END:VALARM", "END:VEVENT", "END:VCALENDAR"]
+    try:
+        c = Calendar.from_ical("\r\n".join(body) + "\r\n")
+    except ValueError as e:
+        return {"state": ("parsed-rejected", where, idx), "trans": 1, "outcome": "rejected", "nontrivial": True,
+                "fails": [fail("menu-line-rejected", case, "a tree", str(e))]}
+    before = state_only(c)
+    try:
+        a = c.to_ical(sorted=srt)
+    except ValueError:
+        # not this property's business (C01/C04 decide what may be refused); purity of a refusal: the tree is unchanged
+        a = None
+    after = state_only(c)
+    try:
+        b = c.to_ical(sorted=srt)
+    except ValueError:
+        b = None
+    if before != after:
+        fails.append(fail("to_ical-changed-the-parsed-tree", case, before, after))
+    if a != b:
+        fails.append(fail("second-serialisation-of-parsed-tree-differs", case, a, b))
+    if a is not None and not balanced(a):
+        fails.append(fail("unbalanced-output", case, "balanced", a))
+    return {"state": ("purity-parsed", where, idx, srt, provider, a), "trans": 3, "nontrivial": True,
+            "outcome": ("pure" if a is not None else "refused-pure") if not fails else "FAIL", "fails": fails}
 
 
 # ---------------------------------------------------------------- (A') nested trees, sorted on/off
@@ -381,7 +437,7 @@ def run_nested(case):
 
 
 def run_case(case):
-    return {"props": run_props, "params": run_params, "repeat": run_repeat, "purity": run_purity,
+    return {"props": run_props, "params": run_params, "repeat": run_repeat, "purity": run_purity, "purity-parsed": run_purity_parsed,
             "nested": run_nested}[case[0]](case)
 
 
@@ -560,7 +616,7 @@ def run(ctx):
     seeds = range(8) if ctx.quick else range(64)
     ctx.rule = (f"E-hist: (A) all permutations of all subsets (<= {kmax} of 7) of distinct property names on 5 component kinds; "
                 "(A') all 144 insertion orders of a 4-level nested tree (calendar > event > alarm > unknown component) serialised with sorting on and off; (B) all permutations of all subsets (<=4) of 7 parameters; (C) all 120 interleavings of 3 repeated values (also with falsy first/last values: empty text, integer 0) / 3 "
-                "subcomponents with 2 other properties; (D) purity on a 30-value-class menu x {no params, a parameter, parameters a writer might tidy up: TZID=UTC / VALUE / empty / list} x nesting x sorted flag; "
+                "subcomponents with 2 other properties; (D) purity on a 30-value-class menu x {no params, a parameter, parameters a writer might tidy up: TZID=UTC / VALUE / empty / list, the parameter map emptied as the reader does} x nesting x sorted flag, and on 45 trees PARSED from lines that leave VALUE / TZID implicit or state defaults x sorted flag x provider; "
                 f"(E) BEGIN/END balance of every output; (F) {len(seeds)} PYTHONHASHSEED values, one digest over ~250 trees each. "
                 "non-trivial = at least two names/parameters or any repeated/purity case.")
     ctx.bounds = {"max_subset": kmax, "pool": 7, "hash_seeds": len(seeds)}
@@ -582,10 +638,15 @@ def run(ctx):
             for pa in itertools.permutations(range(len(NEST_ALARM))):
                 yield ("nested", pe, pa)
         for idx in range(nvals):
-            for wp in (False, True, 2):
+            for wp in (False, True, 2, 3):
                 for nested in (False, True):
                     for srt in (True, False):
                         yield ("purity", idx, wp, nested, srt)
+        for provider in env.PROVIDERS:
+            for where, menu in (("event", PARSED_LINES), ("alarm", PARSED_ALARM_LINES)):
+                for idx in range(len(menu)):
+                    for srt in (True, False):
+                        yield ("purity-parsed", where, idx, srt, provider)
 
     ctx.explore("insertion histories + purity", gen, run_case)
     # (F)
